@@ -195,6 +195,8 @@ def _clean(meta):
 def o_c01(meta, ans, ctx):
     if meta.get('kind') == 'bigfile':
         return o_bigfile(meta, ans)
+    if meta.get('kind') == 'zstvec':
+        return None if ans == 'zstvec ok' else 'zst-length: a sequence of %d zero-sized items does not round-trip (%s)' % (meta['n'], ans[:80])
     if meta.get('kind') != 'case' or meta['mut'] != '-':
         return None
     a = parse_case_answer(ans)
@@ -286,6 +288,11 @@ def expected_header_error(hdr):
 
 
 def o_c10(meta, ans, ctx):
+    if meta.get('kind') == 'quietminor':
+        p = ans.split(' | ')
+        if len(p) != 3 or not p[1].startswith('F ok') or not p[2].startswith('E ok'):
+            return 'minor-lower-quiet: a file of minor version 0 is not accepted when stderr is unwritable (%s)' % ans[:80]
+        return None
     if meta.get('kind') != 'case':
         return None
     a = parse_case_answer(ans)
@@ -656,6 +663,7 @@ def o_c18(meta, ans, ctx):
         mask = mp[2] if len(mp) > 2 else ''
         if len(plain) != len(hx) or any(mask[j:j + 2] != '..' and plain[j:j + 2] != hx[j:j + 2] for j in range(0, len(hx), 2)):
             return 'same-bytes: the recording writer wrote different bytes than the plain writer'
+    if extra.get('flushed', 'true') != 'true': return 'flushed: when the call returned, a sink that hands its bytes on when flushed had not received the whole stream'
     if extra.get('csv', 'None') == 'None': return 'render-csv: to_csv panicked'
     if extra.get('debug', 'None') == 'None': return 'render-debug: debug panicked'
     # depth of each row; a padding row sits at the level of the zero-copy row that follows it
@@ -707,7 +715,16 @@ def _wfail_one(tok_res, tok_hex, k, total, ff, fault_free=None):
     return None
 
 
+def o_iterretry(meta, ans):
+    if ans == 'iterretry -': return None
+    if 'second=returned' not in ans or 'first=panic' in ans:
+        return 'iter-retry: an iterator wrapper used again after a failed serialization: %s' % ans[:80]
+    return None
+
+
 def o_c13(meta, ans, ctx):
+    if meta.get('kind') == 'iterretry':
+        return o_iterretry(meta, ans)
     kind = meta.get('kind')
     if kind == 'wfail':
         p = ans.split(' ')
